@@ -136,7 +136,7 @@ PROPS = {
                             mc("Stream-drop-2x2", ops=("send", "drop", "feed", "upgrade"), scripts="ScriptsPlain", cfgs="CfgsStream", kinds="InitKindsAW")]},
         "gen": {"quick": [gen("g-drop-2x2", "Main_AW_Unb", ops=("send", "drop", "upgrade", "clone"))], "thorough": [gen("g-drop-2x3", "Main_AW_Unb", maxops=3, ops=("send", "drop", "upgrade", "downgrade"))]},
         "live": [(mc("Live-drop-2x2", ops=("send", "drop", "clone", "downgrade", "upgrade"), scripts="ScriptsPlain", cfgs="CfgsB1", kinds="InitKindsAW"), ["L_DropTerminates"])],
-        "families": [("life", 250, 2500), ("timers", 80, 800), ("broker", 50, 500), ("stream", 160, 1600), ("tree", 60, 600), ("registry", 100, 1000), ("mix", 120, 1200)],
+        "families": [("life", 250, 2500), ("timers", 80, 800), ("broker", 50, 500), ("stream", 160, 1600), ("tree", 60, 600), ("registry", 100, 1000), ("tmodrop", 100, 1000), ("mix", 120, 1200)],
         "relevant": r'"op":"(drop|upgrade|downgrade)"', "relevant_min": 1,
     },
     "C06": {
@@ -214,7 +214,7 @@ PROPS = {
                             mc("Timeout-1x4", clients=("c1",), maxops=4, ops=("send", "call", "stop"), scripts="ScriptsSleep2", cfgs="CfgsTmo", horizon=12),
                             mc("NoTimeout-2x2", ops=("send", "call"), scripts="ScriptsSleep", cfgs="CfgsNoTmo", horizon=8)]},
         "gen": {"quick": [gen("g-tmo-2x1", "Main_Addr2_Tmo", maxops=1, ops=("send", "call"), scripts="ScriptsSleep", horizon=6)], "thorough": [gen("g-tmo-2x2", "Main_Addr2_Tmo", ops=("send", "call"), scripts="ScriptsSleep", horizon=8)]},
-        "families": [("timeout", 300, 3000), ("mix", 120, 1200)],
+        "families": [("timeout", 300, 3000), ("tmodrop", 80, 800), ("mix", 120, 1200)],
         "relevant": r'h_abandon|"e":"sleep"', "relevant_min": 1,
     },
     "C12": {
